@@ -248,6 +248,10 @@ pub fn candidates(u: &Universe) -> Vec<Injection> {
                         out.push(Injection { rule: "enumerator-value-unparsable", expect: 10, file: o.file, edits: vec![(vs, ve, " VERIF_NOT_A_NUMBER".into())], object: d.name.clone(), site_class: fclass, what: format!("{}::{} = VERIF_NOT_A_NUMBER", d.name, m1.name) });
                     }
                 }
+                if d.kind == DefinerKind::Flag && !d.base.starts_with('i') {
+                    let signed = format!("i{}", &d.base[1..]);
+                    out.push(Injection { rule: "flag-with-signed-type", expect: 21, file: o.file, edits: vec![(d.base_span.start, d.base_span.end, signed.clone())], object: d.name.clone(), site_class: fclass, what: format!("flag {} : {}", d.name, signed) });
+                }
                 out.push(Injection { rule: "invalid-base-type", expect: 12, file: o.file, edits: vec![(d.base_span.start, d.base_span.end, "f32".into())], object: d.name.clone(), site_class: fclass, what: format!("{} : f32", d.name) });
             }
         }
@@ -304,6 +308,14 @@ pub fn candidates(u: &Universe) -> Vec<Injection> {
                                 let newv: Vec<&str> = toks.iter().enumerate().filter(|(i, _)| *i != k).map(|(_, t)| *t).collect();
                                 out.push(Injection { rule: "type-missing-for-one-version", expect: 1, file: o.file, edits: vec![(value_start, value_end, newv.join(" "))], object: name.clone(), site_class: if k == 0 { "first-version-dropped" } else { "later-version-dropped" }, what: format!("{} no longer has version {} which its user {} needs ({})", name, toks[k], user, nst) });
                             }
+                        }
+                    }
+                    if key == "versions" && !has_tag_all {
+                        // a less specific and a more specific version of the same line in one tag
+                        let first = value.split_whitespace().next().unwrap_or("1");
+                        let extra = if first.contains('.') { first.split('.').next().unwrap_or("1").to_string() } else if first == "*" { String::new() } else { format!("{}.12", first) };
+                        if !extra.is_empty() && !value.split_whitespace().any(|t| t == extra) {
+                            out.push(Injection { rule: "version-tags-overlap", expect: 23, file: o.file, edits: vec![(value_start, value_end, format!("{} {}", value, extra))], object: name.clone(), site_class: fclass, what: format!("{} tagged with versions \"{} {}\" which overlap", name, value, extra) });
                         }
                     }
                     if key == "versions" {
